@@ -42,7 +42,7 @@ CONSTANTS
   Hosts,         \* solicitation sources other than ::
   Kinds,         \* extra message kinds offered by the environment
   MaxIn, MaxT, MaxFlips, MaxHolds,
-  WriteFaults, LinkFaults, AllowCancel,
+  WriteFaults, LinkFaults, AllowCancel, MaxQueries,
   Sec            \* one second in ticks (for the monitor's rounding; 1 = waits are whole ticks)
 
 NONE == "none"
@@ -67,10 +67,10 @@ VARIABLES
   fwd,           \* kernel forwarding flag
   held,          \* destinations whose WriteTo is held open by the driver
   rq,            \* requirement monitor state (AdvReq)
-  nIn, nFlip, nHold
+  nIn, nFlip, nHold, nQuery
 
 vars == <<now, parent, term, egc, egerr, main, ret, sch, stopped, tasks, nextId, wk, mc,
-          ls, lsown, intr, dl, lw, linkEv, ipc, inbox, fwd, held, rq, nIn, nFlip, nHold>>
+          ls, lsown, intr, dl, lw, linkEv, ipc, inbox, fwd, held, rq, nIn, nFlip, nHold, nQuery>>
 
 IsMc(d) == d = ALLNODES
 EgC  == egc \/ parent = "canceled"     \* errgroup ctx is a child of Run's ctx
@@ -91,6 +91,8 @@ EvIn(kind, src, hl) == [k |-> 1, kind |-> kind, src |-> src, hl |-> hl, t |-> no
 EvCnt(c)    == [c |-> c, t |-> now]
 EvRC        == [k |-> 1, t |-> now]
 EvK         == [k |-> 1, t |-> now]
+\* buildRA: the forwarding read, plus the interface_not_forwarding log line when the lifetime is overridden
+Gen(r)      == LET r1 == OnFwd(r, EvFwd) IN IF ~fwd /\ CfgLife > 0 THEN OnMisLog(r1, EvT) ELSE r1
 
 Init ==
   /\ now = 0 /\ parent = "live" /\ term = FALSE /\ egc = FALSE /\ egerr = NONE
@@ -104,7 +106,7 @@ Init ==
   /\ ipc = <<>> /\ inbox = <<>> /\ fwd \in BOOLEAN /\ held = {}
   /\ rq = ReqInit([unicast |-> UnicastOnly, cfglife |-> CfgLife, mon |-> FALSE, strict |-> MinIv > MaxT,
                   quiet |-> (MaxIn = 0 /\ MinIv >= 2 * MinDelay), miniv |-> MinIv, maxiv |-> MaxIv])
-  /\ nIn = 0 /\ nFlip = 0 /\ nHold = 0
+  /\ nIn = 0 /\ nFlip = 0 /\ nHold = 0 /\ nQuery = 0
 
 \* errgroup: first error wins and cancels the group context
 Fail(e) == /\ egerr' = IF egerr = NONE THEN e ELSE egerr
@@ -116,12 +118,12 @@ M_InitSend ==
   /\ main = "init"
   /\ rq' = LET r1 == OnDial(rq, [k |-> 1, res |-> "ok", t |-> now]) IN
            IF UnicastOnly THEN r1      \* send() skips multicast before building anything
-           ELSE OnWRet(OnWCall(OnFwd(r1, EvFwd), EvWC(ALLNODES, Life)), EvWR(ALLNODES, TRUE))
+           ELSE OnWRet(OnWCall(Gen(r1), EvWC(ALLNODES, Life)), EvWR(ALLNODES, TRUE))
   /\ main' = "egwait"
   /\ sch' = [sch EXCEPT !.pc = "select", !.last = now]
   /\ mc' = [mc EXCEPT !.pc = IF UnicastOnly THEN "done" ELSE "check"]
   /\ ls' = [ls EXCEPT !.pc = "top"] /\ intr' = "wait" /\ lw' = "wait"
-  /\ UNCHANGED <<now, parent, term, egc, egerr, ret, stopped, tasks, nextId, wk, lsown, dl, linkEv, ipc, inbox, fwd, held, nIn, nFlip, nHold>>
+  /\ UNCHANGED <<now, parent, term, egc, egerr, ret, stopped, tasks, nextId, wk, lsown, dl, linkEv, ipc, inbox, fwd, held, nIn, nFlip, nHold, nQuery>>
 
 GroupDone == sch.pc = "done" /\ mc.pc = "done" /\ ls.pc = "done" /\ lw = "done"
 
@@ -131,7 +133,7 @@ M_EgDone ==
      THEN /\ main' = "ret" /\ ret' = egerr      \* fn returns the error; Dial cleans the connection up
           /\ rq' = OnRet(OnDone(rq, EvK), [res |-> "err", t |-> now])
      ELSE /\ main' = "shutdown" /\ ret' = ret /\ rq' = rq
-  /\ UNCHANGED <<now, parent, term, egc, egerr, sch, stopped, tasks, nextId, wk, mc, ls, lsown, intr, dl, lw, linkEv, ipc, inbox, fwd, held, nIn, nFlip, nHold>>
+  /\ UNCHANGED <<now, parent, term, egc, egerr, sch, stopped, tasks, nextId, wk, mc, ls, lsown, intr, dl, lw, linkEv, ipc, inbox, fwd, held, nIn, nFlip, nHold, nQuery>>
 
 \* shutdown(): terminate() false, or unicast-only (send() skips multicast) => nothing
 M_ShutCall ==
@@ -141,13 +143,13 @@ M_ShutCall ==
           /\ main' = "shutwrite" /\ ret' = ret
      ELSE /\ rq' = OnRet(OnDone(rq, EvK), [res |-> "nil", t |-> now])
           /\ main' = "ret" /\ ret' = "nil"
-  /\ UNCHANGED <<now, parent, term, egc, egerr, sch, stopped, tasks, nextId, wk, mc, ls, lsown, intr, dl, lw, linkEv, ipc, inbox, fwd, held, nIn, nFlip, nHold>>
+  /\ UNCHANGED <<now, parent, term, egc, egerr, sch, stopped, tasks, nextId, wk, mc, ls, lsown, intr, dl, lw, linkEv, ipc, inbox, fwd, held, nIn, nFlip, nHold, nQuery>>
 
 M_ShutRet ==
   /\ main = "shutwrite" /\ ALLNODES \notin held
   /\ rq' = OnRet(OnDone(OnWRet(rq, EvWR(ALLNODES, TRUE)), EvK), [res |-> "nil", t |-> now])
   /\ main' = "ret" /\ ret' = "nil"
-  /\ UNCHANGED <<now, parent, term, egc, egerr, sch, stopped, tasks, nextId, wk, mc, ls, lsown, intr, dl, lw, linkEv, ipc, inbox, fwd, held, nIn, nFlip, nHold>>
+  /\ UNCHANGED <<now, parent, term, egc, egerr, sch, stopped, tasks, nextId, wk, mc, ls, lsown, intr, dl, lw, linkEv, ipc, inbox, fwd, held, nIn, nFlip, nHold, nQuery>>
 
 ---------------------------------------------------------------------------
 (* scheduler goroutine: schedule() *)
@@ -160,20 +162,20 @@ S_RecvErr ==
        /\ wk' = [wk EXCEPT ![i].pc = "done"]
        /\ sch' = [sch EXCEPT !.pc = "stopping", !.ctxc = TRUE, !.err = "txerr"]
        /\ stopped' = TRUE /\ tasks' = {}          \* stop(): pending timers are stopped
-  /\ UNCHANGED <<now, parent, term, egc, egerr, main, ret, nextId, mc, ls, lsown, intr, dl, lw, linkEv, ipc, inbox, fwd, held, rq, nIn, nFlip, nHold>>
+  /\ UNCHANGED <<now, parent, term, egc, egerr, main, ret, nextId, mc, ls, lsown, intr, dl, lw, linkEv, ipc, inbox, fwd, held, rq, nIn, nFlip, nHold, nQuery>>
 
 S_CtxDone ==
   /\ sch.pc = "select" /\ SchC
   /\ sch' = [sch EXCEPT !.pc = "stopping"]
   /\ stopped' = TRUE /\ tasks' = {}               \* stop(): pending timers are stopped
-  /\ UNCHANGED <<now, parent, term, egc, egerr, main, ret, nextId, wk, mc, ls, lsown, intr, dl, lw, linkEv, ipc, inbox, fwd, held, rq, nIn, nFlip, nHold>>
+  /\ UNCHANGED <<now, parent, term, egc, egerr, main, ret, nextId, wk, mc, ls, lsown, intr, dl, lw, linkEv, ipc, inbox, fwd, held, rq, nIn, nFlip, nHold, nQuery>>
 
 \* stop(): wg.Wait() for the workers that got past the stopped check
 S_Stopped ==
   /\ sch.pc = "stopping" /\ InFlight = {}
   /\ sch' = [sch EXCEPT !.pc = "done"]
   /\ IF sch.err # NONE THEN Fail(sch.err) ELSE UNCHANGED <<egc, egerr>>
-  /\ UNCHANGED <<now, parent, term, main, ret, stopped, tasks, nextId, wk, mc, ls, lsown, intr, dl, lw, linkEv, ipc, inbox, fwd, held, rq, nIn, nFlip, nHold>>
+  /\ UNCHANGED <<now, parent, term, main, ret, stopped, tasks, nextId, wk, mc, ls, lsown, intr, dl, lw, linkEv, ipc, inbox, fwd, held, rq, nIn, nFlip, nHold, nQuery>>
 
 S_RecvIP ==
   /\ sch.pc = "select" /\ ipc # <<>>
@@ -189,7 +191,7 @@ S_RecvIP ==
                   /\ tasks' = tasks \cup {[id |-> nextId, at |-> now + dly, dst |-> d]}
                   /\ sch' = [sch EXCEPT !.last = now + dly]
                   /\ nextId' = nextId + 1
-  /\ UNCHANGED <<now, parent, term, egc, egerr, main, ret, stopped, wk, mc, ls, lsown, intr, dl, lw, linkEv, inbox, fwd, held, rq, nIn, nFlip, nHold>>
+  /\ UNCHANGED <<now, parent, term, egc, egerr, main, ret, stopped, wk, mc, ls, lsown, intr, dl, lw, linkEv, inbox, fwd, held, rq, nIn, nFlip, nHold, nQuery>>
 
 \* a timer fires at its deadline into its own goroutine (a timer that fired
 \* just before stop() is not recalled by Stop: its goroutine meets `stopped`)
@@ -200,7 +202,7 @@ T_Fire ==
        /\ tasks' = tasks \ {tk}
        /\ wk' = [i \in (DOMAIN wk) \cup {tk.id} |->
                    IF i = tk.id THEN [pc |-> "start", dst |-> tk.dst, life |-> 0] ELSE wk[i]]
-  /\ UNCHANGED <<now, parent, term, egc, egerr, main, ret, sch, stopped, nextId, mc, ls, lsown, intr, dl, lw, linkEv, ipc, inbox, fwd, held, rq, nIn, nFlip, nHold>>
+  /\ UNCHANGED <<now, parent, term, egc, egerr, main, ret, sch, stopped, nextId, mc, ls, lsown, intr, dl, lw, linkEv, ipc, inbox, fwd, held, rq, nIn, nFlip, nHold, nQuery>>
 
 ---------------------------------------------------------------------------
 (* send workers: work() -> sendWorker() -> send() -> buildRA() -> WriteTo *)
@@ -211,21 +213,21 @@ W_Start ==
                    IF stopped THEN "done"
                    ELSE IF UnicastOnly /\ IsMc(wk[i].dst) THEN "done"   \* nothing sent, nothing counted
                    ELSE "build"]
-  /\ UNCHANGED <<now, parent, term, egc, egerr, main, ret, sch, stopped, tasks, nextId, mc, ls, lsown, intr, dl, lw, linkEv, ipc, inbox, fwd, held, rq, nIn, nFlip, nHold>>
+  /\ UNCHANGED <<now, parent, term, egc, egerr, main, ret, sch, stopped, tasks, nextId, mc, ls, lsown, intr, dl, lw, linkEv, ipc, inbox, fwd, held, rq, nIn, nFlip, nHold, nQuery>>
 
 W_Build ==     \* reads the forwarding flag: its own step, so a flip can fall before or after
   /\ \E i \in DOMAIN wk :
        /\ wk[i].pc = "build"
        /\ wk' = [wk EXCEPT ![i].pc = "built", ![i].life = Life]
-  /\ rq' = OnFwd(rq, EvFwd)
-  /\ UNCHANGED <<now, parent, term, egc, egerr, main, ret, sch, stopped, tasks, nextId, mc, ls, lsown, intr, dl, lw, linkEv, ipc, inbox, fwd, held, nIn, nFlip, nHold>>
+  /\ rq' = Gen(rq)
+  /\ UNCHANGED <<now, parent, term, egc, egerr, main, ret, sch, stopped, tasks, nextId, mc, ls, lsown, intr, dl, lw, linkEv, ipc, inbox, fwd, held, nIn, nFlip, nHold, nQuery>>
 
 W_WCall ==
   /\ \E i \in DOMAIN wk :
        /\ wk[i].pc = "built"
        /\ rq' = OnWCall(rq, EvWC(wk[i].dst, wk[i].life))
        /\ wk' = [wk EXCEPT ![i].pc = "wcall"]
-  /\ UNCHANGED <<now, parent, term, egc, egerr, main, ret, sch, stopped, tasks, nextId, mc, ls, lsown, intr, dl, lw, linkEv, ipc, inbox, fwd, held, nIn, nFlip, nHold>>
+  /\ UNCHANGED <<now, parent, term, egc, egerr, main, ret, sch, stopped, tasks, nextId, mc, ls, lsown, intr, dl, lw, linkEv, ipc, inbox, fwd, held, nIn, nFlip, nHold, nQuery>>
 
 W_WRet ==
   /\ \E i \in DOMAIN wk :
@@ -233,7 +235,7 @@ W_WRet ==
        /\ \E ok \in (IF WriteFaults THEN BOOLEAN ELSE {TRUE}) :
             /\ wk' = [wk EXCEPT ![i].pc = IF ok THEN "count" ELSE "errcount"]
             /\ rq' = OnWRet(rq, EvWR(wk[i].dst, ok))
-  /\ UNCHANGED <<now, parent, term, egc, egerr, main, ret, sch, stopped, tasks, nextId, mc, ls, lsown, intr, dl, lw, linkEv, ipc, inbox, fwd, held, nIn, nFlip, nHold>>
+  /\ UNCHANGED <<now, parent, term, egc, egerr, main, ret, sch, stopped, tasks, nextId, mc, ls, lsown, intr, dl, lw, linkEv, ipc, inbox, fwd, held, nIn, nFlip, nHold, nQuery>>
 
 W_Count ==
   /\ \E i \in DOMAIN wk :
@@ -243,21 +245,21 @@ W_Count ==
                /\ wk' = [wk EXCEPT ![i].pc = "done"]
           ELSE /\ rq' = OnCnt(rq, EvCnt("txerr"))
                /\ wk' = [wk EXCEPT ![i].pc = "errsend"]
-  /\ UNCHANGED <<now, parent, term, egc, egerr, main, ret, sch, stopped, tasks, nextId, mc, ls, lsown, intr, dl, lw, linkEv, ipc, inbox, fwd, held, nIn, nFlip, nHold>>
+  /\ UNCHANGED <<now, parent, term, egc, egerr, main, ret, sch, stopped, tasks, nextId, mc, ls, lsown, intr, dl, lw, linkEv, ipc, inbox, fwd, held, nIn, nFlip, nHold, nQuery>>
 
 \* select { errC <- err ; <-ctx.Done() }: the receive side is S_RecvErr
 W_ErrGiveUp ==
   /\ \E i \in DOMAIN wk :
        /\ wk[i].pc = "errsend" /\ SchC
        /\ wk' = [wk EXCEPT ![i].pc = "done"]
-  /\ UNCHANGED <<now, parent, term, egc, egerr, main, ret, sch, stopped, tasks, nextId, mc, ls, lsown, intr, dl, lw, linkEv, ipc, inbox, fwd, held, rq, nIn, nFlip, nHold>>
+  /\ UNCHANGED <<now, parent, term, egc, egerr, main, ret, sch, stopped, tasks, nextId, mc, ls, lsown, intr, dl, lw, linkEv, ipc, inbox, fwd, held, rq, nIn, nFlip, nHold, nQuery>>
 
 ---------------------------------------------------------------------------
 (* unsolicited multicast loop: multicast() *)
 MC_Check ==
   /\ mc.pc = "check"
   /\ mc' = [mc EXCEPT !.pc = IF EgC THEN "done" ELSE "send"]
-  /\ UNCHANGED <<now, parent, term, egc, egerr, main, ret, sch, stopped, tasks, nextId, wk, ls, lsown, intr, dl, lw, linkEv, ipc, inbox, fwd, held, rq, nIn, nFlip, nHold>>
+  /\ UNCHANGED <<now, parent, term, egc, egerr, main, ret, sch, stopped, tasks, nextId, wk, ls, lsown, intr, dl, lw, linkEv, ipc, inbox, fwd, held, rq, nIn, nFlip, nHold, nQuery>>
 
 MC_Send ==     \* select { <-ctx.Done() ; ipC <- all-nodes }, then arm the timer
   /\ mc.pc = "send"
@@ -266,13 +268,13 @@ MC_Send ==     \* select { <-ctx.Done() ; ipC <- all-nodes }, then arm the timer
         /\ ipc' = Append(ipc, ALLNODES)
         /\ \E d \in Waits(mc.i) :
              mc' = [pc |-> "wait", i |-> IF mc.i < InitCount THEN mc.i + 1 ELSE mc.i, timer |-> now + d]
-  /\ UNCHANGED <<now, parent, term, egc, egerr, main, ret, sch, stopped, tasks, nextId, wk, ls, lsown, intr, dl, lw, linkEv, inbox, fwd, held, rq, nIn, nFlip, nHold>>
+  /\ UNCHANGED <<now, parent, term, egc, egerr, main, ret, sch, stopped, tasks, nextId, wk, ls, lsown, intr, dl, lw, linkEv, inbox, fwd, held, rq, nIn, nFlip, nHold, nQuery>>
 
 MC_Wake ==
   /\ mc.pc = "wait"
   /\ \/ EgC /\ mc' = [mc EXCEPT !.pc = "done"]
      \/ mc.timer <= now /\ mc' = [mc EXCEPT !.pc = "check"]
-  /\ UNCHANGED <<now, parent, term, egc, egerr, main, ret, sch, stopped, tasks, nextId, wk, ls, lsown, intr, dl, lw, linkEv, ipc, inbox, fwd, held, rq, nIn, nFlip, nHold>>
+  /\ UNCHANGED <<now, parent, term, egc, egerr, main, ret, sch, stopped, tasks, nextId, wk, ls, lsown, intr, dl, lw, linkEv, ipc, inbox, fwd, held, rq, nIn, nFlip, nHold, nQuery>>
 
 ---------------------------------------------------------------------------
 (* listener goroutine: Listen() + receiveRetry(); interrupt goroutine *)
@@ -283,7 +285,7 @@ L_Top ==      \* top of receiveRetry: i := 0, ctx check, ReadFrom is called
   /\ ls.pc = "top"
   /\ ls' = [ls EXCEPT !.pc = Again, !.i = 0]
   /\ rq' = RCallIfReading(rq)
-  /\ UNCHANGED <<now, parent, term, egc, egerr, main, ret, sch, stopped, tasks, nextId, wk, mc, lsown, intr, dl, lw, linkEv, ipc, inbox, fwd, held, nIn, nFlip, nHold>>
+  /\ UNCHANGED <<now, parent, term, egc, egerr, main, ret, sch, stopped, tasks, nextId, wk, mc, lsown, intr, dl, lw, linkEv, ipc, inbox, fwd, held, nIn, nFlip, nHold, nQuery>>
 
 L_Read ==
   /\ ls.pc = "read"
@@ -309,7 +311,7 @@ L_Read ==
                      /\ rq' = OnIn(rq, EvIn(IF msg.kind \in {"rasame", "radiff"} THEN "ra"
                                             ELSE IF msg.kind = "other" THEN "ns" ELSE msg.kind,
                                             msg.src, 255))
-  /\ UNCHANGED <<now, parent, term, egc, egerr, main, ret, sch, stopped, tasks, nextId, wk, mc, lsown, intr, dl, lw, linkEv, ipc, fwd, held, nIn, nFlip, nHold>>
+  /\ UNCHANGED <<now, parent, term, egc, egerr, main, ret, sch, stopped, tasks, nextId, wk, mc, lsown, intr, dl, lw, linkEv, ipc, fwd, held, nIn, nFlip, nHold, nQuery>>
 
 L_Backoff ==
   /\ ls.pc = "backoff"
@@ -320,7 +322,7 @@ L_Backoff ==
                                !.pc = IF exhausted THEN (IF LsC THEN "exitwait" ELSE "errexit") ELSE Again,
                                !.msg = "exhausted"]
            /\ rq' = IF exhausted THEN rq ELSE RCallIfReading(rq)
-  /\ UNCHANGED <<now, parent, term, egc, egerr, main, ret, sch, stopped, tasks, nextId, wk, mc, lsown, intr, dl, lw, linkEv, ipc, inbox, fwd, held, nIn, nFlip, nHold>>
+  /\ UNCHANGED <<now, parent, term, egc, egerr, main, ret, sch, stopped, tasks, nextId, wk, mc, lsown, intr, dl, lw, linkEv, ipc, inbox, fwd, held, nIn, nFlip, nHold, nQuery>>
 
 \* Advertiser.handle: counts the message; RS => destination for the scheduler;
 \* RA => builds our own RA (reads forwarding) and verifies; anything else => invalid
@@ -332,39 +334,39 @@ L_Handle ==
               THEN [ls EXCEPT !.pc = "push", !.msg = IF msg.src = UNSPEC THEN ALLNODES ELSE msg.src]
               ELSE [ls EXCEPT !.pc = "top", !.msg = NONE]
      /\ rq' = CASE msg.kind = "other"  -> OnCnt(r1, EvCnt("inv"))
-                [] msg.kind = "rasame" -> OnFwd(r1, EvFwd)                    \* buildRA for the comparison
-                [] msg.kind = "radiff" -> OnHook(OnFwd(r1, EvFwd), [life |-> Life, body |-> "b", t |-> now])
+                [] msg.kind = "rasame" -> Gen(r1)                             \* buildRA for the comparison
+                [] msg.kind = "radiff" -> OnHook(Gen(r1), [life |-> Life, body |-> "b", t |-> now])
                 [] OTHER               -> r1
-  /\ UNCHANGED <<now, parent, term, egc, egerr, main, ret, sch, stopped, tasks, nextId, wk, mc, lsown, intr, dl, lw, linkEv, ipc, inbox, fwd, held, nIn, nFlip, nHold>>
+  /\ UNCHANGED <<now, parent, term, egc, egerr, main, ret, sch, stopped, tasks, nextId, wk, mc, lsown, intr, dl, lw, linkEv, ipc, inbox, fwd, held, nIn, nFlip, nHold, nQuery>>
 
 L_Push ==     \* select { <-ctx.Done() ; ipC <- ip }  (ctx of the errgroup)
   /\ ls.pc = "push"
   /\ \/ /\ EgC /\ ipc' = ipc
      \/ /\ Len(ipc) < ChanCap /\ ipc' = Append(ipc, ls.msg)
   /\ ls' = [ls EXCEPT !.pc = "top", !.msg = NONE]
-  /\ UNCHANGED <<now, parent, term, egc, egerr, main, ret, sch, stopped, tasks, nextId, wk, mc, lsown, intr, dl, lw, linkEv, inbox, fwd, held, rq, nIn, nFlip, nHold>>
+  /\ UNCHANGED <<now, parent, term, egc, egerr, main, ret, sch, stopped, tasks, nextId, wk, mc, lsown, intr, dl, lw, linkEv, inbox, fwd, held, rq, nIn, nFlip, nHold, nQuery>>
 
 \* error return from Listen: deferred cancel() then eg.Wait() for the interrupt goroutine
 L_ErrCancel ==
   /\ ls.pc = "errexit"
   /\ ls' = [ls EXCEPT !.pc = "errwait"] /\ lsown' = TRUE
-  /\ UNCHANGED <<now, parent, term, egc, egerr, main, ret, sch, stopped, tasks, nextId, wk, mc, intr, dl, lw, linkEv, ipc, inbox, fwd, held, rq, nIn, nFlip, nHold>>
+  /\ UNCHANGED <<now, parent, term, egc, egerr, main, ret, sch, stopped, tasks, nextId, wk, mc, intr, dl, lw, linkEv, ipc, inbox, fwd, held, rq, nIn, nFlip, nHold, nQuery>>
 
 L_ErrDone ==
   /\ ls.pc = "errwait" /\ intr = "done"
   /\ ls' = [ls EXCEPT !.pc = "done"]
   /\ Fail(ls.msg)
-  /\ UNCHANGED <<now, parent, term, main, ret, sch, stopped, tasks, nextId, wk, mc, lsown, intr, dl, lw, linkEv, ipc, inbox, fwd, held, rq, nIn, nFlip, nHold>>
+  /\ UNCHANGED <<now, parent, term, main, ret, sch, stopped, tasks, nextId, wk, mc, lsown, intr, dl, lw, linkEv, ipc, inbox, fwd, held, rq, nIn, nFlip, nHold, nQuery>>
 
 L_ExitWait ==
   /\ ls.pc = "exitwait" /\ intr = "done"
   /\ ls' = [ls EXCEPT !.pc = "done"]
-  /\ UNCHANGED <<now, parent, term, egc, egerr, main, ret, sch, stopped, tasks, nextId, wk, mc, lsown, intr, dl, lw, linkEv, ipc, inbox, fwd, held, rq, nIn, nFlip, nHold>>
+  /\ UNCHANGED <<now, parent, term, egc, egerr, main, ret, sch, stopped, tasks, nextId, wk, mc, lsown, intr, dl, lw, linkEv, ipc, inbox, fwd, held, rq, nIn, nFlip, nHold, nQuery>>
 
 I_Fire ==
   /\ intr = "wait" /\ LsC
   /\ intr' = "done" /\ dl' = TRUE
-  /\ UNCHANGED <<now, parent, term, egc, egerr, main, ret, sch, stopped, tasks, nextId, wk, mc, ls, lsown, lw, linkEv, ipc, inbox, fwd, held, rq, nIn, nFlip, nHold>>
+  /\ UNCHANGED <<now, parent, term, egc, egerr, main, ret, sch, stopped, tasks, nextId, wk, mc, ls, lsown, lw, linkEv, ipc, inbox, fwd, held, rq, nIn, nFlip, nHold, nQuery>>
 
 ---------------------------------------------------------------------------
 (* link-state watcher goroutine: linkStateWatcher() *)
@@ -372,7 +374,7 @@ LW_Step ==
   /\ lw = "wait"
   /\ \/ /\ linkEv /\ lw' = "done" /\ Fail("linkchange")
      \/ /\ EgC /\ lw' = "done" /\ UNCHANGED <<egc, egerr>>
-  /\ UNCHANGED <<now, parent, term, main, ret, sch, stopped, tasks, nextId, wk, mc, ls, lsown, intr, dl, linkEv, ipc, inbox, fwd, held, rq, nIn, nFlip, nHold>>
+  /\ UNCHANGED <<now, parent, term, main, ret, sch, stopped, tasks, nextId, wk, mc, ls, lsown, intr, dl, linkEv, ipc, inbox, fwd, held, rq, nIn, nFlip, nHold, nQuery>>
 
 ---------------------------------------------------------------------------
 Internal == M_InitSend \/ M_EgDone \/ M_ShutCall \/ M_ShutRet
@@ -387,6 +389,16 @@ Quiescent == ~ENABLED Internal
 Msgs == {[kind |-> "rs", src |-> h] : h \in Hosts \cup {UNSPEC}}
         \cup {[kind |-> k, src |-> NONE] : k \in Kinds}
 
+\* a metrics scrape or a debug-API request (C04/C17): reads forwarding and reports what an RA built now would carry
+E_Query ==
+  /\ nQuery < MaxQueries /\ Quiescent
+  /\ \E api \in BOOLEAN :
+       rq' = LET r1 == OnFwd(OnQueryCall(OnQuiet(rq, EvT), EvT), EvFwd) IN
+             IF api THEN OnApi(r1, [ok |-> TRUE, life |-> Life, t |-> now])
+             ELSE OnScrape(r1, [ok |-> TRUE, fwd |-> fwd, misconf |-> ~fwd /\ CfgLife > 0, t |-> now])
+  /\ nQuery' = nQuery + 1
+  /\ UNCHANGED <<now, parent, term, egc, egerr, main, ret, sch, stopped, tasks, nextId, wk, mc, ls, lsown, intr, dl, lw, linkEv, ipc, inbox, fwd, held, nIn, nFlip, nHold>>
+
 \* messages arrive at quiescent points, or back to back while earlier ones are
 \* still queued (bursts overtake the listener); a message arriving in the middle
 \* of other internal steps is indistinguishable from one queued just before them
@@ -395,45 +407,45 @@ E_Arrive ==
   /\ Quiescent \/ inbox # <<>>
   /\ \E msg \in Msgs : inbox' = Append(inbox, msg)
   /\ nIn' = nIn + 1
-  /\ UNCHANGED <<now, parent, term, egc, egerr, main, ret, sch, stopped, tasks, nextId, wk, mc, ls, lsown, intr, dl, lw, linkEv, ipc, fwd, held, rq, nFlip, nHold>>
+  /\ UNCHANGED <<now, parent, term, egc, egerr, main, ret, sch, stopped, tasks, nextId, wk, mc, ls, lsown, intr, dl, lw, linkEv, ipc, fwd, held, rq, nFlip, nHold, nQuery>>
 
 E_Cancel ==
   /\ AllowCancel /\ Quiescent /\ parent = "live" /\ main = "egwait"
   /\ parent' = "canceled"
   /\ \E b \in BOOLEAN : /\ term' = b
                         /\ rq' = OnCancel(OnQuiet(rq, EvT), [term |-> b, t |-> now])
-  /\ UNCHANGED <<now, egc, egerr, main, ret, sch, stopped, tasks, nextId, wk, mc, ls, lsown, intr, dl, lw, linkEv, ipc, inbox, fwd, held, nIn, nFlip, nHold>>
+  /\ UNCHANGED <<now, egc, egerr, main, ret, sch, stopped, tasks, nextId, wk, mc, ls, lsown, intr, dl, lw, linkEv, ipc, inbox, fwd, held, nIn, nFlip, nHold, nQuery>>
 
 E_Link ==
   /\ LinkFaults /\ Quiescent /\ ~linkEv /\ main = "egwait" /\ lw = "wait"
   /\ linkEv' = TRUE /\ rq' = OnLink(OnQuiet(rq, EvT), EvT)
-  /\ UNCHANGED <<now, parent, term, egc, egerr, main, ret, sch, stopped, tasks, nextId, wk, mc, ls, lsown, intr, dl, lw, ipc, inbox, fwd, held, nIn, nFlip, nHold>>
+  /\ UNCHANGED <<now, parent, term, egc, egerr, main, ret, sch, stopped, tasks, nextId, wk, mc, ls, lsown, intr, dl, lw, ipc, inbox, fwd, held, nIn, nFlip, nHold, nQuery>>
 
 E_Flip ==
   /\ nFlip < MaxFlips
   /\ fwd' = ~fwd /\ nFlip' = nFlip + 1
-  /\ UNCHANGED <<now, parent, term, egc, egerr, main, ret, sch, stopped, tasks, nextId, wk, mc, ls, lsown, intr, dl, lw, linkEv, ipc, inbox, held, rq, nIn, nHold>>
+  /\ UNCHANGED <<now, parent, term, egc, egerr, main, ret, sch, stopped, tasks, nextId, wk, mc, ls, lsown, intr, dl, lw, linkEv, ipc, inbox, held, rq, nIn, nHold, nQuery>>
 
 \* the driver holds a destination's WriteTo open (slow transmit) and lets it go
 E_Hold ==
   /\ nHold < MaxHolds /\ main = "egwait"
   /\ \E d \in (Hosts \cup {ALLNODES}) \ held : held' = held \cup {d}
   /\ nHold' = nHold + 1 /\ rq' = OnHold(rq, EvT)
-  /\ UNCHANGED <<now, parent, term, egc, egerr, main, ret, sch, stopped, tasks, nextId, wk, mc, ls, lsown, intr, dl, lw, linkEv, ipc, inbox, fwd, nIn, nFlip>>
+  /\ UNCHANGED <<now, parent, term, egc, egerr, main, ret, sch, stopped, tasks, nextId, wk, mc, ls, lsown, intr, dl, lw, linkEv, ipc, inbox, fwd, nIn, nFlip, nQuery>>
 
 E_Release ==
   /\ Quiescent /\ held # {}
   /\ \E d \in held : held' = held \ {d}
   /\ rq' = OnRelease(rq, EvT)
-  /\ UNCHANGED <<now, parent, term, egc, egerr, main, ret, sch, stopped, tasks, nextId, wk, mc, ls, lsown, intr, dl, lw, linkEv, ipc, inbox, fwd, nIn, nFlip, nHold>>
+  /\ UNCHANGED <<now, parent, term, egc, egerr, main, ret, sch, stopped, tasks, nextId, wk, mc, ls, lsown, intr, dl, lw, linkEv, ipc, inbox, fwd, nIn, nFlip, nHold, nQuery>>
 
 Tick ==
   /\ Quiescent /\ now < MaxT
   /\ now' = now + 1
   /\ rq' = OnAdvance(OnQuiet(rq, EvT), [to |-> now + 1, t |-> now])
-  /\ UNCHANGED <<parent, term, egc, egerr, main, ret, sch, stopped, tasks, nextId, wk, mc, ls, lsown, intr, dl, lw, linkEv, ipc, inbox, fwd, held, nIn, nFlip, nHold>>
+  /\ UNCHANGED <<parent, term, egc, egerr, main, ret, sch, stopped, tasks, nextId, wk, mc, ls, lsown, intr, dl, lw, linkEv, ipc, inbox, fwd, held, nIn, nFlip, nHold, nQuery>>
 
-Next == Internal \/ E_Arrive \/ E_Cancel \/ E_Link \/ E_Flip \/ E_Hold \/ E_Release \/ Tick
+Next == Internal \/ E_Arrive \/ E_Cancel \/ E_Link \/ E_Flip \/ E_Hold \/ E_Release \/ E_Query \/ Tick
 Spec == Init /\ [][Next]_vars
 FairSpec == Spec /\ WF_vars(Internal) /\ WF_vars(Tick) /\ WF_vars(E_Release)
 
